@@ -8,7 +8,9 @@ STR_POOL = ["", "a", "b", "ab", "abc", "x", "p_1", "class", "a b", "foo", "A", "
 KEY_POOL = ["a", "b", "c", "x", "p_1", "class", "a b", "a-b", "a_b", "foo", "$id", "b1", "default", "items",
             "é", "0", "self_", "name", "type", "__dict__", "__weakref__", "__class__", "__module__", "__slots__"]
 SAFE_KEY_POOL = ["a", "b", "c", "x", "p_1", "class", "foo", "$id", "b1", "name", "type", "é", "0", "my key"]
-PATTERNS = ["^a", "b$", "^[a-c]+$", "x", "^p_", "^.$", "1", "^(foo|b1)$", "^$", "[0-9]"]
+PATTERNS = ["^a", "b$", "^[a-c]+$", "x", "^p_", "^.$", "1", "^(foo|b1)$", "^$", "[0-9]",
+            # a backslash together with both kinds of quote (how a pattern is written out again matters: repr, generated source)
+            "^[\\w' -]+$", "^\\w+'s\"?$"]
 FORMATS = ["uuid", "date-time", "my-format", "email", "UUID", "Date-Time", "uuid "]   # case / spacing variants are OTHER (unregistered) names
 TITLES = ["Foo", "Bar", "foo bar", "Baz", "Item", "Thing", "A", "nested thing"]
 NUMS = [0, 1, 2, 3, 5, 10, -1, -3, 0.5, 1.5, 2.0, 3.0, 2.5, 0.1, 100, 7, 4, 6]
@@ -329,7 +331,7 @@ def gen_string(rng, s):
     if "pattern" in s:
         hints = {"^a": ["a", "ab", "ba"], "b$": ["b", "ab", "ba"], "^[a-c]+$": ["abc", "abd", "c"], "x": ["x", "axb"],
                  "^p_": ["p_1", "xp_"], "^.$": ["a", "ab"], "1": ["1", "b1"], "^(foo|b1)$": ["foo", "b1", "foo1"],
-                 "^$": ["", "a"], "[0-9]": ["0", "a"]}
+                 "^$": ["", "a"], "[0-9]": ["0", "a"], PATTERNS[10]: ["a b", "it's", "a+b"], PATTERNS[11]: ["it's", "its", 'it\'s"']}
         cands += hints.get(s["pattern"], []) * 3
     if s.get("format") == "uuid":
         cands += ["12345678-1234-5678-1234-567812345678", "not-a-uuid", "12345678123456781234567812345678"] * 2
@@ -381,7 +383,8 @@ def gen_object(rng, s, depth):
             out[k] = random_value(rng, 1)
     pp = s.get("patternProperties") if isinstance(s.get("patternProperties"), dict) else {}
     hints = {"^a": ["a", "ab", "a b"], "b$": ["b", "ab"], "^[a-c]+$": ["abc", "c"], "x": ["x"], "^p_": ["p_1"],
-             "^.$": ["a", "x"], "1": ["b1", "p_1"], "^(foo|b1)$": ["foo", "b1"], "^$": [""], "[0-9]": ["0", "b1"]}
+             "^.$": ["a", "x"], "1": ["b1", "p_1"], "^(foo|b1)$": ["foo", "b1"], "^$": [""], "[0-9]": ["0", "b1"],
+             PATTERNS[10]: ["a b", "it's"], PATTERNS[11]: ["it's"]}
     for pat, sub in pp.items():
         if rng.random() < 0.6:
             k = rng.choice(hints.get(pat, ["a"]))
@@ -463,3 +466,23 @@ def formats_of(s, acc=None):
         for v in s:
             formats_of(v, acc)
     return acc
+
+
+def floatify(v):
+    """the same JSON value with every integer written as the equal float (1 -> 1.0); None if it holds no integer.
+    Aimed at the documented deviation "1.0 is not an integer": such a value must be rejected at integer positions."""
+    seen = [False]
+
+    def go(x):
+        if isinstance(x, bool):
+            return x
+        if isinstance(x, int) and abs(x) < 2 ** 53:
+            seen[0] = True
+            return float(x)
+        if isinstance(x, list):
+            return [go(y) for y in x]
+        if isinstance(x, dict):
+            return {k: go(y) for k, y in x.items()}
+        return x
+    out = go(v)
+    return out if seen[0] else None
